@@ -79,6 +79,12 @@ def witness_lines(fx):
             problems.append((label, "cannot generate a witness for %d parameter(s) / type generics %s" % (n_in, own_ty_generics)))
             continue
         lines.append((label, "fn _w_opq%d() { a%d(%s); }" % (len(lines), n_in, name)))
+    # what the cache's borrowing queries answer lives as long as the *data*, not as long as the handle that was asked: a worker that
+    # owns (a clone of) the parsed cache can send its answers on after dropping it. (With the lifetimes elided the answers
+    # would borrow from `&self` - same auto traits, same behaviour, but no longer movable out of the thread that owns the handle.)
+    for meth, ret, args in (("remap_class", "Option<&'d str>", '"a"'), ("remap_method", "Option<(&'d str, &'d str)>", '"a", "b"')):
+        lines.append(("result-lifetime:proguard::ProguardCache::%s" % meth,
+                      "fn _w_life_%s<'d>(c: proguard::ProguardCache<'d>) -> %s { c.%s(%s) }" % (meth, ret, meth, args)))
     return lines, problems
 
 
